@@ -76,6 +76,9 @@ pub struct EpCfg {
     pub client_topic_alias_max: u16,
     /// v3 client: max_receive/in-flight config
     pub client_handshake_timeout_s: u16,
+    /// server roles: the sender tasks are started inside the handshake service with `Handshake::sink()`,
+    /// before the CONNECT is acknowledged (the send limit is installed only afterwards)
+    pub early_senders: bool,
 }
 
 impl Default for EpCfg {
@@ -114,6 +117,7 @@ impl Default for EpCfg {
             client_max_packet_size: None,
             client_topic_alias_max: 0,
             client_handshake_timeout_s: 0,
+            early_senders: false,
         }
     }
 }
